@@ -999,11 +999,11 @@ func (env *Env) callPureGo(f *types.Func, recv *Val, argsE []SExpr) (Val, error)
 		}
 		args = append(args, v.T)
 	}
-	if sig.Results().Len() != 1 {
-		return Val{}, fmt.Errorf("pure call %s must have one result", key)
+	if sig.Results().Len() < 1 {
+		return Val{}, fmt.Errorf("pure call %s must have a result", key)
 	}
 	fr.vc.externUsed["extern "+pkg+"::"+key] = true
-	return Val{T: fr.pureApp(c, 0, sig, recvT, args), Typ: sig.Results().At(0).Type()}, nil
+	return Val{T: fr.pureApp(env.st, c, 0, sig, recvT, args), Typ: sig.Results().At(0).Type()}, nil
 }
 
 // applySpecFunc expands a defined spec function or applies an uninterpreted one.
